@@ -77,6 +77,7 @@ def fold_rust(idx: Index, spec, structs, sname):
     m = idx.get(P_RC)
     it = Interp(m.tree, name=P_RC)
     it.globals["model"] = ModuleRef("model", attrs={})
+    it.globals["copy"] = ModuleRef("copy", attrs={"deepcopy": ("host", _deepcopy), "copy": ("host", lambda x: x)})
     f = it.globals.get("get_extended_properties")
     if not isinstance(f, Closure):
         raise AnalysisError(f"{P_RC}: get_extended_properties not found")
@@ -222,3 +223,77 @@ def fold_python_literals(idx: Index):
             names = [l.fields["name"] for l in lits]
             res[label] = None if len(set(names)) == len(names) else f"literals share the generated name {names}"
     return res
+
+
+def _deepcopy(x, memo=None):
+    """copy.deepcopy for evaluator values (Records keep their field values, including id_)."""
+    memo = {} if memo is None else memo
+    if id(x) in memo:
+        return memo[id(x)]
+    if isinstance(x, Record):
+        r = Record(x.cls_name, {}, x.classes)
+        memo[id(x)] = r
+        r.fields = {k: _deepcopy(v, memo) for k, v in x.fields.items()}
+        r.frozen_attrs = None if x.frozen_attrs is None else set(x.frozen_attrs)
+        return r
+    if isinstance(x, list):
+        out = []
+        memo[id(x)] = out
+        out.extend(_deepcopy(v, memo) for v in x)
+        return out
+    if isinstance(x, dict):
+        out = {}
+        memo[id(x)] = out
+        for k, v in x.items():
+            out[k] = _deepcopy(v, memo)
+        return out
+    return x
+
+
+def fold_rust_inherited_literal(idx: Index):
+    """An anonymous literal type on a property of a base structure is visited once per structure that inherits it.
+    The rust plugin memoises generated literal structs by the node's id_ and keeps the generated name ON the node;
+    every visit must yield the same, non-empty struct name.  -> (name via A, name via B)"""
+    m = idx.get(P_RC)
+    lu = idx.get("generator/plugins/rust/rust_lang_utils.py")
+    it = Interp(m.tree, name=P_RC)
+    lit = Interp(lu.tree, name=lu.rel)
+    for nm, v in lit.globals.items():
+        it.globals.setdefault(nm, v)
+    it.globals["copy"] = ModuleRef("copy", attrs={"deepcopy": ("host", _deepcopy), "copy": ("host", lambda x: x)})
+    it.globals["model"] = ModuleRef("model", attrs={})
+    td = m.classes.get("TypeData")
+    if td is None:
+        raise AnalysisError(f"{P_RC}: TypeData not found")
+    methods = {x.name: x for x in td.body if isinstance(x, ast.FunctionDef)}
+    it.classes["TypeData"] = methods
+    types = Record("TypeData", {"_id_data": {}}, it.classes)
+
+    def S(name, props, extends=()):
+        return Record("Structure", {"name": name, "properties": list(props), "extends": [_ref(x) for x in extends], "mixins": [],
+                                    "documentation": None, "since": None, "sinceTags": None, "proposed": None,
+                                    "deprecated": None, "id_": f"id-{name}"})
+    inner = _prop("<lit>", "x")
+    lit_ty = Record("LiteralType", {"kind": "literal", "name": None, "documentation": None, "since": None, "sinceTags": None,
+                                    "proposed": None, "deprecated": None, "id_": "id-lit",
+                                    "value": Record("LiteralValue", {"properties": [inner], "id_": "id-lv"})})
+    p = _prop("G", "hint")
+    p.fields["type"] = lit_ty
+    structs = [S("G", [p]), S("A", [_prop("A", "a1")], ["G"]), S("B", [_prop("B", "b1")], ["G"])]
+    spec = Record("LSPModel", {"structures": structs, "enumerations": [], "typeAliases": [], "requests": [], "notifications": []})
+    by = {s.fields["name"]: s for s in structs}
+    gep = it.globals.get("get_extended_properties")
+    gtn = it.globals.get("get_type_name")
+    if not isinstance(gep, Closure) or not isinstance(gtn, Closure):
+        raise AnalysisError(f"{P_RC}: get_extended_properties / get_type_name not found")
+    names = []
+    for sname in ("A", "B", "G"):
+        props = gep(by[sname], spec)
+        hp = [q for q in props if q.fields["name"] == "hint"]
+        if len(hp) != 1:
+            raise AnalysisError(f"{P_RC}: the inherited property is not flattened into {sname}")
+        try:
+            names.append(gtn(hp[0].fields["type"], types, spec, hp[0].fields["optional"], hp[0].fields["name"]))
+        except Raised as e:
+            names.append(f"<raises {e.exc_name}>")
+    return names
